@@ -443,6 +443,27 @@ pub fn run(ctx: &mut Ctx) {
             .prop_map(|((a, b), a_ns, b_ns)| PairCase { a, b, a_ns, b_ns })
     };
     ctx.run_prop(&PairSub, &strat, tier.pick(200_000, 20_000_000));
+    // near pairs: same or adjacent day, times of day that differ by a few units of one sub-second / time field, with
+    // the lower fields ordered the other way round (a comparison that looks at the fields in the wrong order, or
+    // skips one, only shows on such pairs)
+    let near = || {
+        let field = || prop_oneof![3 => Just(0i128), 3 => Just(999i128), 2 => Just(1i128), 2 => Just(998i128), 2 => 0i128..1000];
+        let unit = proptest::sample::select(vec![1i128, 1_000, 1_000_000, 1_000_000_000, 60_000_000_000, 3_600_000_000_000]);
+        (crate::gen::day(), (0i128..24, 0i128..60, 0i128..60), (field(), field(), field()), unit, -3i128..=3, (field(), field(), field()), -1i64..=1, prop::bool::weighted(0.8))
+            .prop_map(|(a, (h, mi, sec), (ms, us, ns), unit, k, (ms2, us2, ns2), dd, same_day)| {
+                let a_ns = ((h * 60 + mi) * 60 + sec) * 1_000_000_000 + ms * 1_000_000 + us * 1_000 + ns;
+                // b: a moved by k units, then every field below that unit replaced by an independent value
+                let moved = a_ns + k * unit;
+                let low = (ms2 * 1_000_000 + us2 * 1_000 + ns2) % unit;
+                let b_ns = (moved - moved.rem_euclid(unit) + low).clamp(0, NS_PER_DAY - 1);
+                let b = if same_day { a } else { (a + dd).clamp(crate::refm::civil::MIN_DAY, crate::refm::civil::MAX_DAY) };
+                PairCase { a, b, a_ns, b_ns }
+            })
+    };
+    ctx.run_prop(&PairSub, &near, tier.pick(200_000, 5_000_000));
+    // every constructor yields a day inside 1..=length of its month (or refuses): the constructor regulation oracle
+    // of C17, run here over raw year/month/day values incl. 0, length+1, 255 under both overflow modes
+    ctx.run_prop(&crate::props::c17::CtorSub, &crate::props::c17::ctor_case, tier.pick(150_000, 2_000_000));
 }
 
 pub fn replay(ctx: &mut Ctx, sub: &str, case: &Value) -> bool {
@@ -450,6 +471,7 @@ pub fn replay(ctx: &mut Ctx, sub: &str, case: &Value) -> bool {
         "day" => ctx.replay_case(&DaySub, case),
         "pair" => ctx.replay_case(&PairSub, case),
         "year" => ctx.replay_case(&YearSub, case),
+        "ctor" => ctx.replay_case(&crate::props::c17::CtorSub, case),
         _ => false,
     }
 }
